@@ -13,6 +13,13 @@
 (*          argmiss  callee(&^k ref);         (parameter is a pointer to the*)
 (*                                             type of the expression)]    *)
 (*                                                                         *)
+(* A cell may carry two more fields that R deliberately IGNORES: y, the     *)
+(* statement context of the statement (top level, block, loop block, then  *)
+(* / else / else-if arms, after a label) and x, the expression context of  *)
+(* an address-of argument (direct, in parentheses, element of an array     *)
+(* literal argument, member of a struct literal argument, argument of a    *)
+(* nested call, return value, condition).  The rule is context independent.*)
+(*                                                                         *)
 (* R (declarative; errors.md E530-E533, E513, features.md "Views",         *)
 (* "Reference pointers", "Structs and words", property C08):               *)
 (*  - a place can be mutated iff its base is a `var` (not of view type) or *)
